@@ -5,7 +5,7 @@ from .lib.paths import explore
 SELECT = r'^bluetoe::(notification_queue|details::notification_queue_impl|details::notification_queue_impl_base)::|^bluetoe::server::handle_value_confirmation$|^bluetoe::server::indication_confirmed$|^bluetoe::server::l2cap_output$'
 UNITS = lambda u: u in ('w_inst_att',) or u.startswith('t_notification_queue') or u.startswith('t_att_indication')
 Q = 'bluetoe::details::notification_queue_impl::'
-ALSO = [('C12', ('entry-addressing',))]   # a removal must not wipe another entry's pending indication: decided by C12's rule, run here as well
+ALSO = [('C12', ('entry-addressing', 'priority-chaining'))]   # a removal must not wipe another entry's pending indication: decided by C12's rule, run here as well
 NONE = 'no_outstanding_indicaton'
 META = {
     'level': 'guarded-by and who-writes rules on both notification queue implementations (general and single-entry) and the server: an indication is handed out only on the edge '
